@@ -10,6 +10,12 @@ Per run:  (1) translator obligations: `pulse_desc` re-reads every constructor / 
               lines go through `pyexpr` and are proved equal to the model's frac_lower/frac_upper/norm;
           (2) correspondence: all constructors, all 14 pulse functions, remove/filter/reorder, d = 1..5, against the
               Coq model run on NumD;  (3) the property predicates evaluated directly on the implementation's output.
+Densities: the operators are linear and the theorems hold for arbitrary real densities, so every function meets, on
+every run, non-negative, sign-changing, half-zero, all-negative, single-cell, ~1e-300 and ~1e300 densities (`density`).
+A function whose translator obligation breaks (source rewritten in a shape the translator refuses, or wired
+differently from the table) is additionally run on the pool 7 densities x 7 proportion classes x shared / per-axis
+grids (`pool_cases`) against the model and the predicates; only when that finds nothing is the broken obligation
+reported without a failing input.
 """
 import itertools, json, math, os
 from fractions import Fraction
@@ -51,11 +57,14 @@ COQ_HDR_NAT = ('From Coq Require Import String.\nFrom Coq Require Import ZArith 
                'From Dadi Require Import Base.Num Model.PhiManip Model.PhiManipCheck.\nImport ListNotations.\n')
 
 def translator_obligations(ctx):
+    ALL = [n for n, _, _, _ in PULSES + CONS]
+    DIM = {n: d for n, d, _, _ in PULSES + CONS}
+    untied = {}       # function -> the obligation that no longer ties it to the model
     try:
         tree = pulse_desc.parse(PHIMANIP)
     except (SyntaxError, OSError) as e:
         ctx.obligation('parse dadi/PhiManip.py', False, 'translator', str(e))
-        return
+        return {n: 'parse dadi/PhiManip.py' for n in ALL}
     files = []
     # (a) _admixture_intermediates
     try:
@@ -84,16 +93,25 @@ def translator_obligations(ctx):
         files.append(('C06_ob_core_arith', v, 'generated obligation: frac_lower / frac_upper / norm of the source = model (pyexpr, reflexivity|field)'))
     except (pulse_desc.Refuse, pyexpr.Refuse) as e:
         ctx.obligation('translate _admixture_intermediates', False, 'translator', str(e))
+        for f in ALL:
+            untied.setdefault(f, 'translate _admixture_intermediates')
     # (b) the four helpers: coefficient of each axis, left-to-right sum, proportion test
     for n in (2, 3, 4, 5):
         nm = pulse_desc.HELPERS[n]
         try:
             h = pulse_desc.extract_helper(tree, n)
             ok = h == pulse_desc.expected_helper(n)
-            ctx.obligation('translate %s: ad-mixed frequency = f1*x1 + ... + (1-f1-...)*x%d left to right, test %s' % (
-                nm, n, 'f1+...>1 raises ValueError' if n >= 3 else 'absent'), ok, 'translator', '' if ok else repr(h))
+            hname = 'translate %s: ad-mixed frequency = f1*x1 + ... + (1-f1-...)*x%d left to right, test %s' % (
+                nm, n, 'f1+...>1 raises ValueError' if n >= 3 else 'absent')
+            ctx.obligation(hname, ok, 'translator', '' if ok else repr(h))
         except pulse_desc.Refuse as e:
-            ctx.obligation('translate %s' % nm, False, 'translator', str(e))
+            ok = False
+            hname = 'translate %s' % nm
+            ctx.obligation(hname, False, 'translator', str(e))
+        if not ok:
+            for f in ALL:
+                if DIM[f] == n:
+                    untied.setdefault(f, hname)
     # (c) every pulse function and constructor: descriptor = table entry
     try:
         names = pulse_desc.pulse_names(tree)
@@ -114,6 +132,7 @@ def translator_obligations(ctx):
             return d
         except pulse_desc.Refuse as e:
             ctx.obligation('translate PhiManip.%s' % name, False, 'translator', str(e))
+            untied.setdefault(name, 'translate PhiManip.%s' % name)
             return None
     for k, (name, d, _, _) in enumerate(PULSES):
         one('pulse_table', k, name, lambda: pulse_desc.extract_pulse(tree, name))
@@ -127,6 +146,7 @@ def translator_obligations(ctx):
         if 'split' in name:
             if admix is None:
                 ctx.obligation('translate PhiManip.%s' % name, False, 'translator', 'phi_2D_to_3D_admix was not translated')
+                untied.setdefault(name, 'translate PhiManip.%s' % name)
             else:
                 one('cons_table', k, name, lambda: pulse_desc.extract_split(tree, name, admix))
     files.append(('C06_ob_tables', COQ_HDR_NAT + 'Example ob : (length pulse_table, length cons_table) = (%d, %d)%%nat.\nProof. reflexivity. Qed.\n' % (len(PULSES), len(CONS)),
@@ -135,8 +155,17 @@ def translator_obligations(ctx):
     for n, t, what in files:
         rc, so, se, secs = res[n]
         ctx.obligation(what, rc == 0, 'translator', se[-400:] if rc else '')
+        if rc:
+            if n == 'C06_ob_core_arith':
+                hit = ALL
+            elif n == 'C06_ob_tables':
+                hit = []
+            else:
+                hit = [n[len('C06_ob_'):]]
+            for f in hit:
+                untied.setdefault(f, what)
     ctx.checker_cmds.append('coqc build/cases/C06_ob_*.v (regenerated from dadi/PhiManip.py)')
-    return descs
+    return untied
 
 # ------------------------------------------------------------------------------------------------------------
 # generators
@@ -235,72 +264,161 @@ def props_of(rng, cls, m, pat, grid):
 
 CLASSES = ['zero', 'onehot', 'interior', 'face', 'ongrid', 'ulp', 'above']
 
+# densities.  Every operator of PhiManip is linear and the theorems of Props/C06.v are stated for arbitrary real
+# densities (dadi's integrators return negative cells routinely), so every function sees every kind on every run.
+TINY = 2.0 ** -997      # ~7.5e-301: entries of magnitude 1e-303 .. 6e-300, all normal float64
+HUGE = 2.0 ** 996       # ~6.7e299: entries up to 5.4e300; |entry| * 2/min spacing (2^13) * n stays far below 2^1024
+DENS = ['pos', 'mixed', 'zeros', 'allneg', 'single', 'tiny', 'huge']
+SIGNED = DENS[1:]
+
+def _mag(rng):
+    return lib.dyadic(rng, 1 / 256, 8, 8)
+
+def density(rng, n, kind):
+    """n dyadic float64 entries.
+    pos: non-negative (uniform random / a few spikes / smooth)      mixed: every entry non-zero, both signs present
+    zeros: about half exact zeros, the rest of both signs            allneg: negative everywhere
+    single: one non-zero cell (either sign)                          tiny / huge: mixed-with-zeros scaled by 2^-997 / 2^996"""
+    if kind == 'pos':
+        sub = rng.choice(['random', 'random', 'spike', 'smooth'])
+        if sub == 'random':
+            return [lib.dyadic(rng, 0, 8, 8) for _ in range(n)]
+        if sub == 'spike':
+            v = [0.0] * n
+            for _ in range(max(1, n // 6)):
+                v[rng.randrange(n)] = lib.dyadic(rng, 0.5, 16, 6)
+            return v
+        return [round((1 + (i % 7)) * 64 / (1 + i % 5)) / 64 for i in range(n)]
+    if kind == 'allneg':
+        return [-_mag(rng) for _ in range(n)]
+    if kind == 'single':
+        v = [0.0] * n
+        v[rng.randrange(n)] = rng.choice([-1, 1]) * _mag(rng)
+        return v
+    if kind == 'mixed':
+        v = [rng.choice([-1, 1]) * _mag(rng) for _ in range(n)]
+        forced = rng.sample(range(n), min(n, 2))
+        for j, sg in zip(forced, (-1, 1)):
+            v[j] = sg * abs(v[j])
+        return v
+    if kind in ('zeros', 'tiny', 'huge'):
+        v = [rng.choice([0.0, rng.choice([-1, 1]) * _mag(rng)]) for _ in range(n)]
+        forced = rng.sample(range(n), min(n, 3))
+        for j, sg in zip(forced, (-1, 1, 0)):
+            v[j] = sg * (abs(v[j]) or _mag(rng))
+        sc = {'zeros': 1.0, 'tiny': TINY, 'huge': HUGE}[kind]
+        return [x * sc for x in v]
+    raise ValueError(kind)
+
+VALID = ['zero', 'onehot', 'interior', 'face', 'ongrid', 'ulp']      # classes the code must accept
+
+def admix_case(rng, quick, op, k, name, d, dest, pat, cls, dens, shared, **extra):
+    """one call of a pulse function / constructor: proportion class x density kind x (shared | per-axis) grids"""
+    m = NPROPS[name]
+    dd = d + (0 if op == 'pulse' else 1)
+    n = npts(rng, dd, quick)
+    if shared:
+        kind = 'uniform' if cls == 'ongrid' else None
+        if kind == 'uniform':
+            n = 3 if dd >= 5 else rng.choice([3, 5]) if dd == 4 else 5 if dd == 3 else rng.choice([5, 9])
+        g = numgen.grid(rng, n, kind=kind)
+        ngr = 1 if m == 0 else d + (1 if op == 'cons' else 0)
+        grids = [list(g)] * ngr
+    else:
+        # per-axis grids of equal length (never used by dadi.Integration; checks that the grid wiring is modelled as written)
+        g = None
+        ngr = d + (1 if op == 'cons' else 0)
+        grids = [numgen.grid(rng, n) for _ in range(ngr)]
+        if op == 'cons':
+            grids[-1] = numgen.grid(rng, rng.randint(3, n + 2))
+    ps = props_of(rng, cls, m, pat, g)
+    c = dict(op=op, k=k, fn=name, shape=[n] * d, grids=grids, ps=ps, phi=density(rng, n ** d, dens), cls=cls, dens=dens,
+             shared=shared, dest=dest, pat=pat)
+    c.update(extra)
+    return c
+
+def pool_cases(rng, quick, op, k, name, d, dest, pat, reps=1):
+    """the rich pool run on a function whose source is no longer recognised by the translator:
+    7 densities x 7 proportion classes x (shared | per-axis) grids"""
+    out = []
+    m = NPROPS[name]
+    for rep in range(reps):
+        for dens in DENS:
+            for cls in (CLASSES if m > 0 else ['zero']):
+                for shared in ((True, False) if m > 0 else (True,)):
+                    out.append(admix_case(rng, quick, op, k, name, d, dest, pat, cls, dens, shared, pool=True))
+    return out
+
 def npts(rng, d, quick):
     return {1: rng.randint(4, 8), 2: rng.randint(4, 8), 3: rng.randint(4, 6 if quick else 7),
             4: rng.randint(3, 4 if quick else 5), 5: rng.randint(3, 3 if quick else 4)}[d]
 
-def gen_cases(ctx):
+def gen_cases(ctx, refused=()):
     rng = ctx.rng
     cases = []
     reps = ctx.pick(1, 12)
+    sweeps = ctx.pick(1, 3)
+    rot = rng.randrange(len(DENS))
     def add(**c):
         c['id'] = len(cases); cases.append(c)
+    fi = 0
     for table, op in ((PULSES, 'pulse'), (CONS, 'cons')):
         for k, (name, d, dest, pat) in enumerate(table):
             m = NPROPS[name]
-            for cls in CLASSES:
-                if m == 0 and cls != 'zero':
-                    continue
-                for rep in range(reps):
-                    n = npts(rng, d + (0 if op == 'pulse' else 1), ctx.quick)
-                    kind = 'uniform' if cls == 'ongrid' else None
-                    if kind == 'uniform':
-                        dd = d + (0 if op == 'pulse' else 1)
-                        n = 3 if dd >= 5 else rng.choice([3, 5]) if dd == 4 else 5 if dd == 3 else rng.choice([5, 9])
-                    g = numgen.grid(rng, n, kind=kind)
-                    ngr = d + (1 if (op == 'cons' and m > 0) else 0)
-                    if m == 0:
-                        ngr = 1
-                    ps = props_of(rng, cls, m, pat, g)
-                    phi = numgen.density(rng, n ** d)
-                    add(op=op, k=k, fn=name, shape=[n] * d, grids=[list(g)] * ngr, ps=ps, phi=phi, cls=cls, shared=True,
-                        dest=dest, pat=pat)
-            # per-axis grids of equal length (never used by dadi.Integration; checks that the grid wiring is modelled as written)
-            if m > 0:
-                for rep in range(reps):
-                    n = npts(rng, d + (0 if op == 'pulse' else 1), ctx.quick)
-                    ngr = d + (1 if op == 'cons' else 0)
-                    grids = [numgen.grid(rng, n) for _ in range(ngr)]
-                    if op == 'cons':
-                        grids[-1] = numgen.grid(rng, rng.randint(3, n + 2))
-                    add(op=op, k=k, fn=name, shape=[n] * d, grids=grids, ps=simplex(rng, m), phi=numgen.density(rng, n ** d),
-                        cls='pergrid', shared=False, dest=dest, pat=pat)
-    for rep in range(3 * reps):
+            fi += 1
+            classes = CLASSES if m > 0 else ['zero']
+            for rep in range(reps):
+                # every proportion class (and per-axis grids) once, the density kinds rotating through them
+                for ci, cls in enumerate(classes):
+                    add(**admix_case(rng, ctx.quick, op, k, name, d, dest, pat, cls, DENS[(fi + ci + rot + rep) % len(DENS)], True))
+                if m > 0:
+                    add(**admix_case(rng, ctx.quick, op, k, name, d, dest, pat, 'interior', DENS[(fi + rot + rep + 3) % len(DENS)], False))
+            # every sign-changing / extreme density kind under a proportion class the code must accept (values are compared)
+            for rep in range(sweeps):
+                for j, dens in enumerate(SIGNED):
+                    cls = VALID[(fi + j + rot + rep) % len(VALID)] if m > 0 else 'zero'
+                    add(**admix_case(rng, ctx.quick, op, k, name, d, dest, pat, cls, dens, True))
+            if name in refused:
+                for c in pool_cases(rng, ctx.quick, op, k, name, d, dest, pat, reps=ctx.pick(1, 2)):
+                    add(**c)
+    t = rot
+    for rep in range(ctx.pick(1, 3) * len(DENS)):
         n = rng.randint(3, 9)
-        add(op='split12', fn='phi_1D_to_2D', shape=[n], grids=[numgen.grid(rng, n)], ps=[], phi=numgen.density(rng, n, kind='random'),
-            cls='split12', shared=True)
+        dens = DENS[(t + rep) % len(DENS)]
+        add(op='split12', fn='phi_1D_to_2D', shape=[n], grids=[numgen.grid(rng, n)], ps=[], phi=density(rng, n, dens),
+            cls='split12', dens=dens, shared=True)
+    t = rot
     for d in range(1, 6):
         for rep in range(2 * reps):
+            # 10 cases per function and run over d = 1..5: every density kind reaches remove / reorder / filter
+            dens = DENS[t % len(DENS)]; t += 1
             hi = {1: 9, 2: 7, 3: 5, 4: 4, 5: 3}[d]
             shape = [rng.randint(2, hi) for _ in range(d)]
             size = int(np.prod(shape))
             pop = rng.randint(1, d)
             add(op='remove', fn='remove_pop', shape=shape, grids=[numgen.grid(rng, shape[pop - 1]) if shape[pop - 1] >= 3 else [0.0, 1.0]],
-                ps=[], phi=numgen.density(rng, size), arg=pop, cls='remove', shared=True)
+                ps=[], phi=density(rng, size, dens), arg=pop, cls='remove', dens=dens, shared=True)
             # reorder: valid permutations and malformed orders
             if rng.random() < 0.75:
                 order = list(range(1, d + 1)); rng.shuffle(order)
             else:
                 order = [rng.randint(0, d + 1) for _ in range(rng.choice([d, d, d - 1, d + 1]))]
-            add(op='reorder', fn='reorder_pops', shape=shape, grids=[], ps=[], phi=numgen.density(rng, size), arg=order,
-                cls='reorder', shared=True)
+            add(op='reorder', fn='reorder_pops', shape=shape, grids=[], ps=[], phi=density(rng, size, dens), arg=order,
+                cls='reorder', dens=dens, shared=True)
+            # filter_pops: d = 2..5 gives 8 cases; the kinds missed by the rotation are added at d = 2 below
             if d >= 2:
                 n = rng.randint(3, hi + 1)
                 keep = sorted(rng.sample(range(1, d + 1), rng.randint(1, d)))
                 if rng.random() < 0.5:
                     rng.shuffle(keep)
-                add(op='filter', fn='filter_pops', shape=[n] * d, grids=[numgen.grid(rng, n)], ps=[], phi=numgen.density(rng, n ** d),
-                    arg=keep, cls='filter', shared=True)
+                add(op='filter', fn='filter_pops', shape=[n] * d, grids=[numgen.grid(rng, n)], ps=[], phi=density(rng, n ** d, dens),
+                    arg=keep, cls='filter', dens=dens, shared=True)
+    seen = set(c['dens'] for c in cases if c['op'] == 'filter')
+    for dens in DENS:
+        if dens not in seen:
+            n = rng.randint(3, 7)
+            add(op='filter', fn='filter_pops', shape=[n, n], grids=[numgen.grid(rng, n)], ps=[], phi=density(rng, n * n, dens),
+                arg=[rng.randint(1, 2)], cls='filter', dens=dens, shared=True)
     return cases
 
 # ------------------------------------------------------------------------------------------------------------
@@ -319,11 +437,19 @@ def marg(a, g, axis):
 def in_simplex(ps):
     return all(p >= 0 for p in ps) and sum(Fraction(p) for p in ps) <= 1
 
+def _rec(ctx, dev, sc):
+    """largest deviation of a conservation predicate that holds, relative to its scale (evidence: margin to 1e-12)"""
+    if 0 < dev <= PTOL * sc:
+        ctx.err('predicate', int(math.ceil(math.log2(dev / sc))), '1e-12 of max |incoming entry|')
+
 def predicates(ctx, c, r):
     """returns list of (what, key) for every clause of the property that fails on this case"""
     bad = []
     op = c['op']
-    sc = max(1e-300, max(abs(x) for x in c['phi']))
+    # scale: max |incoming entry|.  The trapezoid weights of a grid on [0,1] are non-negative and sum to 1, so this
+    # bounds the sum of the absolute contributions to every marginal: a marginal that cancels (sign-changing density)
+    # is still judged against what went into it, never against its own (possibly tiny) value.
+    sc = max(abs(x) for x in c['phi']) or 1.0
     ps = c['ps']
     if op in ('pulse', 'cons') and NPROPS[c['fn']] > 0:
         above = sum(Fraction(p) for p in ps) > 1
@@ -335,8 +461,8 @@ def predicates(ctx, c, r):
             return bad
     if r['raised']:
         return bad
-    if not c.get('shared', True):
-        return bad
+    if not c.get('shared', True) and op == 'pulse' and c['fn'] in OTHER_GRID:
+        return bad        # passes another axis' grid: conservation is claimed on shared grids only (faithfully modelled)
     out = np.array(r['res'], dtype=float).reshape(r['shape'])
     phi = np.array(c['phi'], dtype=float).reshape(c['shape'])
     if not np.all(np.isfinite(out)):
@@ -346,6 +472,7 @@ def predicates(ctx, c, r):
         g = c['grids'][-1]
         m = marg(out, g, out.ndim - 1)
         dev = np.abs(m - phi)
+        _rec(ctx, dev.max(), sc)
         if dev.max() > PTOL * sc:
             key = None
             if op == 'split12':
@@ -384,15 +511,19 @@ def predicates(ctx, c, r):
         k = c['dest']
         g = c['grids'][k]
         dev = np.abs(marg(out, g, k) - marg(phi, g, k))
+        _rec(ctx, dev.max() if dev.size else 0.0, sc)
         if dev.size and dev.max() > PTOL * sc:
             bad.append(('%s with proportions %r changes the joint density of the other populations (destination integrated out): max dev %.3g, scale %.3g' % (
                 c['fn'], ps, dev.max(), sc), None))
         if all(p == 0 for p in ps):
             dev = np.abs(out - phi)
+            _rec(ctx, dev.max(), sc)
             if dev.max() > PTOL * sc:
                 bad.append(('%s at proportion 0 is not the identity: max dev %.3g, scale %.3g' % (c['fn'], dev.max(), sc), None))
     elif op == 'remove':
         want = marg(phi, c['grids'][0], c['arg'] - 1)
+        if list(want.shape) == r['shape']:
+            _rec(ctx, float(np.abs(out - want).max()) if want.size else 0.0, sc)
         if list(want.shape) != r['shape'] or np.abs(out - want).max() > PTOL * sc:
             bad.append(('remove_pop(popnum=%d) is not the trapezoid marginal over that population' % c['arg'], None))
     elif op == 'filter':
@@ -432,16 +563,20 @@ def run(ctx):
     ctx.rule = ('cases = (function among the 5 constructors, phi_1D_to_2D, the 14 pulse functions, remove/filter/reorder; d = 1..5; '
                 'one random dyadic grid (uniform / exponential / quadratic / random) shared by all axes, or per-axis grids of equal length; '
                 'proportion class among zero / one-hot / simplex interior / simplex face / dyadic halves-quarters on a uniform grid (ad-mixed '
-                'frequencies exactly on grid points) / non-dyadic with float ad-mixed frequency one ulp above 1 / summing above 1; random '
-                'non-negative density) drawn from one PRNG; distinct = distinct (function, shape, grids, proportions, density); '
-                'non-trivial = not all proportions zero')
+                'frequencies exactly on grid points) / non-dyadic with float ad-mixed frequency one ulp above 1 / summing above 1; density kind '
+                'among non-negative / every entry non-zero with both signs / half exact zeros with both signs / negative everywhere / a single '
+                'non-zero cell / sign-changing scaled by 2^-997 (~1e-300) / sign-changing scaled by 2^996 (~1e300)) drawn from one PRNG; '
+                'every function meets every proportion class, per-axis grids and every density kind on every run (kinds rotate through the '
+                'classes, plus one case per sign-changing kind under an accepted class); a function whose translator obligation breaks is '
+                'additionally run on 7 densities x 7 classes x shared/per-axis grids; '
+                'distinct = distinct (function, shape, grids, proportions, density); non-trivial = not all proportions zero')
     ctx.assumptions += ['float64 output of the real code is compared with the model evaluated in 128-bit software floating point (NumD, exact comparisons) at 1e-10 relative to the largest entry',
                         'the deposit is continuous in the ad-mixed frequency across grid points, so a one-ulp difference between float and exact evaluation of the frequency changes the bracket but not the result beyond round-off',
                         'property predicates on the implementation use 1e-12 relative to the largest incoming entry',
                         'per-axis grids: only equal lengths (unequal lengths index out of bounds in the 4-D/5-D pulse functions that pass another axis\' grid); conservation is claimed for shared grids or own-grid wiring']
     ctx.trusted += ['numpy fancy-index assignment, broadcasting, searchsorted and transpose semantics are covered by the correspondence check only']
-    translator_obligations(ctx)
-    cases = gen_cases(ctx)
+    untied = translator_obligations(ctx) or {}
+    cases = gen_cases(ctx, refused=set(untied))
     if ctx.replay:
         rp = json.load(open(ctx.replay))
         if rp.get('input') and 'case' in rp['input']:
@@ -455,6 +590,11 @@ def run(ctx):
     for c in cases:
         r = byid[c['id']]
         ctx.count('%s' % c['fn']); ctx.count('class=' + c['cls']); ctx.count('d=%d' % len(c['shape']))
+        ctx.count('density=' + c.get('dens', '?')); ctx.count('%s density=%s' % (c['fn'], c.get('dens', '?')))
+        if not c.get('shared', True):
+            ctx.count('per-axis grids')
+        if c.get('pool'):
+            ctx.count('pool after a broken translator obligation: ' + c['fn'])
         if c['cls'] == 'ulp':
             a = corner_adz(c['pat'], c['ps'])
             ctx.count('ulp: float ad-mixed frequency at the all-ones corner ' + ('> 1' if a > 1 else '< 1' if a < 1 else '= 1'))
@@ -473,7 +613,9 @@ def run(ctx):
         pname = {'pulse': 'marginals of the other populations / zero identity / acceptance', 'cons': 'new-population marginal / bracketing / copy / acceptance',
                  'split12': 'new-population marginal', 'remove': 'remove = marginalisation', 'filter': 'filter = marginalisation', 'reorder': 'reorder = permutation'}[c['op']]
         known = [k for _, k in bad if k is not None]
-        ob = ctx.obligation('%s case %d (%s): %s' % (c['fn'], c['id'], c['cls'], pname), not bad, 'predicate', '; '.join(w for w, _ in bad)[:400])
+        ob = ctx.obligation('%s case %d (%s, %s density%s): %s' % (c['fn'], c['id'], c['cls'], c.get('dens', '?'),
+                                                                 '' if c.get('shared', True) else ', per-axis grids', pname),
+                            not bad, 'predicate', '; '.join(w for w, _ in bad)[:400])
         if bad:
             ctx.obligations[-1]['known_key'] = known[0] if len(known) == len(bad) else None
         for what, key in bad:
@@ -496,7 +638,7 @@ def run(ctx):
             continue
         rr = results.get(c['id'])
         ok = rr is not None and rr[0]
-        ctx.obligation('corr case %d: %s %s d=%d' % (c['id'], c['fn'], c['cls'], len(c['shape'])), ok, 'correspondence',
+        ctx.obligation('corr case %d: %s %s %s d=%d' % (c['id'], c['fn'], c['cls'], c.get('dens', '?'), len(c['shape'])), ok, 'correspondence',
                        '' if ok else 'model != impl (coq result %r)' % (rr,))
         if not ok:
             nbad += 1
@@ -504,5 +646,18 @@ def run(ctx):
                 ctx.violation('%s (%s, proportions %r): the real code and the Coq model of PhiManip disagree; no clause of the property failed on any generated input' % (
                     c['fn'], c['cls'], c['ps']), data={'case': strip(c), 'impl': byid[c['id']], 'coq': rr}, no_input=True,
                     broken='correspondence %s' % c['fn'])
-    # findings that carry a key (candidates for known_findings.json) are listed after everything else
-    ctx.violations.sort(key=lambda v: (0 if v['key'] is None else 1, v.get('prio', 0)))
+    # a function whose source the translator no longer recognises: it was run on the rich pool above (7 densities x
+    # 7 proportion classes x shared / per-axis grids) against the Coq model and the conservation predicates; only when
+    # neither found anything is the broken obligation reported without a failing input
+    for fn, obname in sorted(untied.items()):
+        hit = [v for v in ctx.violations if not v['no_input'] and v['key'] is None and
+               isinstance(v.get('data'), dict) and v['data'].get('case', {}).get('fn') == fn]
+        if not hit:
+            npool = sum(1 for c in cases if c.get('pool') and c['fn'] == fn)
+            ctx.violation('%s is no longer tied to its Coq model (%s); %d pool inputs (densities %s%s) agree with the model and '
+                          'satisfy every conservation predicate' % (
+                              fn, obname, npool, '/'.join(DENS),
+                              ' x proportion classes %s x shared / per-axis grids' % '/'.join(CLASSES) if NPROPS[fn] else ', no proportion parameter'),
+                          data={'obligation': obname, 'function': fn, 'pool_cases': npool}, no_input=True, broken=obname)
+    # failing inputs first; findings that carry a key (candidates for known_findings.json) after everything else
+    ctx.violations.sort(key=lambda v: (0 if v['key'] is None else 1, 1 if v['no_input'] else 0, v.get('prio', 0)))
